@@ -38,6 +38,7 @@ type Case struct {
 	Picks      []int
 	Seq        []Req // sequential repeats after completion
 	FailGet    int   // n-th Storage.Get fails (0 = none)
+	FailSet    int   `json:",omitempty"` // n-th Storage.Set fails: the answer of a completed execution cannot be recorded
 	FailLock   int   // n-th Lock fails (0 = none)
 	FailSerial []int // handler executions (by serial) that return an error
 	Memory     bool  // default in-memory storage + MemoryLock without yield points (only the handler yields)
@@ -107,6 +108,9 @@ func check(c Case) vk.Verdict {
 		st.Retain = c.Retain
 		if c.FailGet > 0 {
 			st.FailGet = map[int]bool{c.FailGet: true}
+		}
+		if c.FailSet > 0 {
+			st.FailSet = map[int]bool{c.FailSet: true}
 		}
 		cfg.Storage = st
 		cfg.Lock = lk
@@ -261,7 +265,7 @@ func check(c Case) vk.Verdict {
 		pi++
 		return p
 	})
-	ctxs := fmt.Sprintf("concurrent %+v then %+v (split=%v keep=%v keepNil=%v failGet=%d failLock=%d failSerial=%v memory=%v)\nschedule: %v", c.Conc, c.Seq, c.Split, c.Keep, c.KeepNil, c.FailGet, c.FailLock, c.FailSerial, c.Memory, s.Trace)
+	ctxs := fmt.Sprintf("concurrent %+v then %+v (split=%v keep=%v keepNil=%v failGet=%d failSet=%d failLock=%d failSerial=%v memory=%v)\nschedule: %v", c.Conc, c.Seq, c.Split, c.Keep, c.KeepNil, c.FailGet, c.FailSet, c.FailLock, c.FailSerial, c.Memory, s.Trace)
 	if len(res.Panics) > 0 {
 		return vk.Failf("%s\npanic: %s", ctxs, res.Panics[0])
 	}
@@ -298,15 +302,33 @@ func check(c Case) vk.Verdict {
 		}
 	}
 	faultsTriggered := 0
+	setFaultHit := false
 	if st != nil {
-		ng, _, _ := st.Counts()
+		ng, ns, _ := st.Counts()
 		if c.FailGet > 0 && ng >= c.FailGet {
 			faultsTriggered++
+		}
+		if c.FailSet > 0 && ns >= c.FailSet {
+			faultsTriggered++
+			setFaultHit = true
 		}
 	}
 	faultsTriggered += lk.hit
 	n500 := 0
 	overlap := false
+	unrecorded := -1
+	if setFaultHit {
+		// the execution whose answer could not be recorded: its request is answered with an error - nothing else is
+		// allowed to look as if the operation had been stored
+		for g, r := range all {
+			if e := execBy[g]; protected(r) && e != nil && e.ok && started[g] && resps[g].Response.StatusCode() == 500 && unrecorded < 0 {
+				unrecorded = g
+			}
+		}
+		if unrecorded < 0 {
+			return vk.Failf("%s\nthe storage refused to record an answer (Set fault) but no request whose handler completed was answered with an error", ctxs)
+		}
+	}
 	for g, r := range all {
 		resp := resps[g]
 		code := resp.Response.StatusCode()
@@ -323,10 +345,16 @@ func check(c Case) vk.Verdict {
 		}
 		k := fullKey(r.Key)
 		if len(okExecs[k]) > 1 {
+			if setFaultHit && fullKey(all[unrecorded].Key) == k {
+				return vk.Failf("%s\nSET-FAULT key %s: the answer of the first execution could not be recorded, the handler completed successfully %d times", ctxs, r.Key, len(okExecs[k]))
+			}
 			return vk.Failf("%s\nkey %s: the handler completed successfully %d times", ctxs, r.Key, len(okExecs[k]))
 		}
 		if code == 500 {
 			n500++
+			if g == unrecorded {
+				continue
+			}
 			if started[g] {
 				return vk.Failf("%s\nrequest %d %+v got an error answer (500) but the handler had been started for it", ctxs, g, r)
 			}
@@ -414,6 +442,9 @@ func genCase(t *rapid.T) Case {
 		if rapid.IntRange(0, 2).Draw(t, "getfault") == 0 {
 			c.FailGet = rapid.IntRange(1, 8).Draw(t, "gf")
 		}
+		if rapid.IntRange(0, 3).Draw(t, "setfault") == 0 {
+			c.FailSet = rapid.IntRange(1, 3).Draw(t, "sf")
+		}
 		if rapid.IntRange(0, 2).Draw(t, "lockfault") == 0 {
 			c.FailLock = rapid.IntRange(1, 4).Draw(t, "lf")
 		}
@@ -424,6 +455,22 @@ func genCase(t *rapid.T) Case {
 	return c
 }
 
-var propIdem = vk.Register(&vk.Prop[Case]{Property: property, Name: "schedule", Gen: genCase, Check: check, Quick: 4000, Thorough: 8000})
+// classify recognises open finding C17-c: when the storage refuses to record the answer of a completed execution, the
+// request is answered with an error (correct) but nothing remembers that the operation took place: the next duplicate
+// runs the handler again. Only that exact shape - the failure is the SET-FAULT message and the same case without the
+// Set fault passes.
+func classify(c Case, fail string) string {
+	if c.FailSet == 0 || !strings.Contains(fail, "\nSET-FAULT key ") {
+		return ""
+	}
+	c2 := c
+	c2.FailSet = 0
+	if check(c2).Fail == "" {
+		return "C17-c"
+	}
+	return ""
+}
+
+var propIdem = vk.Register(&vk.Prop[Case]{Property: property, Name: "schedule", Gen: genCase, Check: check, Classify: classify, Quick: 4000, Thorough: 8000})
 
 func TestSchedule(t *testing.T) { propIdem.Run(t) }
